@@ -87,6 +87,9 @@ pub struct SymbolsExportsModule {
     pub extends: Vec<BffFileName>,
 
     pub export_default: Option<Rc<SymbolExportDefault>>,
+
+    /// a second default export was met while binding: the module is rejected by `parse_and_bind`
+    pub duplicate_default_export: bool,
 }
 impl Default for SymbolsExportsModule {
     fn default() -> Self {
@@ -101,11 +104,13 @@ impl SymbolsExportsModule {
             named_unknown: HashMap::new(),
             extends: Vec::new(),
             export_default: None,
+            duplicate_default_export: false,
         }
     }
     pub fn set_default_export(&mut self, export: Rc<SymbolExportDefault>) {
         if self.export_default.is_some() {
-            panic!("Default export already set");
+            self.duplicate_default_export = true;
+            return;
         }
         self.export_default = Some(export);
     }
